@@ -113,11 +113,13 @@ pub fn all_keys() -> Vec<Key> {
         key("\"é\"", "é"),
         key("\"a\\\"b\"", "a\"b"),
         key("\"a.b\"", "a.b"),
+        // a key that is a jq keyword: `.and` is not a path expression
+        key("\"and\"", "and"),
     ]
 }
 
 impl Alphabet {
-    /// DESIGN §2 alphabets: 17 scalars, 17 strings, 9 key spellings.
+    /// DESIGN §2 alphabets: 17 scalars, 17 strings, 10 key spellings.
     pub fn full() -> Self {
         let mut leaves = all_scalars();
         leaves.extend(all_strings());
